@@ -150,5 +150,13 @@ func (f Descent) locate(pp Expr, data any, rest Expr, max int) (locs []Expr) {
 
 // Walk each element in the tree of elements.
 func (f Descent) Walk(rest, path Expr, nodes []any, cb func(path Expr, nodes []any)) {
+	if 0 < len(rest) {
+		// A descent includes the current element so the rest of the
+		// expression is applied to it and then to each of the children in
+		// turn with the descent still in place.
+		rest[0].Walk(rest[1:], path, nodes, cb)
+		wildWalk(append(Expr{f}, rest...), path, nodes, cb, nil)
+		return
+	}
 	wildWalk(rest, path, nodes, cb, f)
 }
